@@ -67,9 +67,12 @@ def body_src(body, ind="    ") -> list[str]:
 
 
 def elem_types(t):
-    if t["k"] == "tuple":
-        return [py(x) for x in t["a"]]
-    return [py(t)]
+    u = t
+    while u["k"] == "Alias":
+        u = u["a"][0]
+    if u["k"] == "tuple":
+        return [py(x) for x in u["a"]]
+    return [py(u)]
 
 
 def docstring(sc) -> str:
@@ -97,7 +100,9 @@ def concretise(scs) -> str:
     for sc in scs:
         i = sc["id"]
         if sc["mode"] == "ann":
-            out.append(f"def a{i}() -> {py(sc['ret'])}:\n{docstring(sc)}\n    ...\n\n")
+            defs: list = []
+            ann = py(sc["ret"], defs, str(i))
+            out.append("".join(d + "\n" for d in defs) + ("\n\n" if defs else "") + f"def a{i}() -> {ann}:\n{docstring(sc)}\n    ...\n\n")
         else:
             doc = (docstring(sc) + "\n") if sc["ndoc"] else ""
             sig = "c: int = 0, d: int = 0" if sc["mode"] == "infp" else "c=0, d=0"
